@@ -9,6 +9,7 @@ func allProps() []PropSpec {
 				{Func: "ZZ_C01_H2", Pkg: "pkg/protocol/http1", Quick: map[string]int{"D": 2, "V": 3, "FRAG": 1}, Thorough: map[string]int{"D": 3, "V": 4, "FRAG": 2}, Covers: []string{"valid-reached", "invalid-reached"}},
 				{Func: "ZZ_C01_H3", Pkg: "pkg/protocol/http1", Quick: map[string]int{"C": 2, "S": 2, "SL": 2, "FRAG": 1}, Thorough: map[string]int{"C": 3, "S": 3, "SL": 2, "FRAG": 2}, Covers: []string{"reached-assert", "two-chunks"}},
 				{Func: "ZZ_C01_H4", Pkg: "pkg/protocol/http1", Quick: map[string]int{"K": 2, "FRAG": 3}, Thorough: map[string]int{"K": 3, "FRAG": 4}, Covers: []string{"reached-assert", "two-requests"}},
+				{Func: "ZZ_C14_H1", Pkg: "pkg/protocol/http1", Quick: map[string]int{"L": 4, "C": 2, "S": 3, "R": 2}, Thorough: map[string]int{"L": 6, "C": 2, "S": 6, "R": 3}, Covers: []string{"reached-assert"}, MaxSteps: 4000000, Note: "streaming mode: shared with C14 (its pipelined-request-still-handled assertion is a C01 clause)"},
 			},
 			Assumptions: []string{"transport: the real standard.Conn over a harness net.Conn; netpoll is outside", "bodies are a few bytes; buffer-boundary sizes (4 KiB/8 KiB) are C13/C14's subject", "Content-Length spellings valid only with HTAB as OWS are in neither obligation (refusing them is safe)", "multipart pre-parsing disabled"},
 		},
@@ -16,6 +17,7 @@ func allProps() []PropSpec {
 			ID: "C02",
 			Harnesses: []HarnessSpec{
 				{Func: "ZZ_C02_H1", Pkg: "pkg/protocol/http1", Quick: map[string]int{"SPLITS": 1}, Thorough: map[string]int{"SPLITS": 2}, Covers: []string{"reached-assert", "two-requests-served"}},
+				{Func: "ZZ_C11_H2", Pkg: "pkg/protocol/http1/resp", Covers: []string{"reached-assert", "too-large"}, Note: "client direction: response reader, whole vs every split point"},
 			},
 			Assumptions: []string{"server direction only in this revision (client response reading is covered by C11 harnesses when present)", "streams are the four templates in harness/pkg/protocol/http1/c02.go, one with two symbolic structural bytes; quick = every single split point, thorough = every pair of split points"},
 		},
@@ -48,6 +50,7 @@ func allProps() []PropSpec {
 				{Func: "ZZ_C03_Trailers", Pkg: "pkg/protocol", Quick: map[string]int{"N": 4}, Thorough: map[string]int{"N": 5}, Covers: []string{"reached-end"}},
 				{Func: "ZZ_C03_Boundary", Pkg: "pkg/protocol", Quick: map[string]int{"N": 6}, Thorough: map[string]int{"N": 8}, Covers: []string{"reached-end"}},
 				{Func: "ZZ_C03_ParseUint", Pkg: "pkg/protocol", Quick: map[string]int{"N": 6}, Thorough: map[string]int{"N": 10}, Covers: []string{"reached-end", "parsed"}},
+				{Func: "ZZ_C03_HexInt", Pkg: "pkg/protocol/http1", Quick: map[string]int{"L": 17}, Thorough: map[string]int{"L": 20}, Covers: []string{"reached-assert", "parsed"}},
 				{Func: "ZZ_C03_SRV", Pkg: "pkg/protocol/http1", Quick: map[string]int{"W": 1}, Thorough: map[string]int{"W": 2}, Covers: []string{"reached-assert", "rejected", "accepted-both"}},
 			},
 			Assumptions: []string{"time.Parse/ParseInLocation is an opaque stub that succeeds or fails nondeterministically", "inputs longer than the stated bounds are outside the claim"},
@@ -70,13 +73,14 @@ func allProps() []PropSpec {
 				{Func: "ZZ_C17_H1D", Pkg: "pkg/protocol", Quick: map[string]int{"N": 5}, Thorough: map[string]int{"N": 7}, Covers: []string{"reached-assert", "has-escape"}},
 				{Func: "ZZ_C17_H2", Pkg: "pkg/protocol", Quick: map[string]int{"M": 1}, Thorough: map[string]int{"M": 2}, Covers: []string{"reached-assert", "two-entries"}},
 				{Func: "ZZ_C17_H4", Pkg: "pkg/protocol", Quick: map[string]int{"M": 1}, Thorough: map[string]int{"M": 2}, Covers: []string{"reached-assert"}},
+				{Func: "ZZ_C17_H3", Pkg: "pkg/protocol", Quick: map[string]int{"M": 1, "P": 2}, Thorough: map[string]int{"M": 2, "P": 2}, Covers: []string{"reached-assert", "has-query-and-hash"}},
 			},
 			Assumptions: []string{"cookie expires (time formatting) is outside the claim; max-age ranges over 5 representative values", "agreement with net/url is checked against a reference implementing net/url.QueryUnescape's acceptance rule, not against net/url.ParseQuery on whole strings", "URI FullURI/Parse fixed point is checked in ZZ_C17_H3 when present"},
 		},
 		{
 			ID: "C19",
 			Harnesses: []HarnessSpec{
-				{Func: "ZZ_C19_H1", Pkg: "pkg/protocol/http1", Quick: map[string]int{"K": 2, "OPS": 2, "TRUNCK": 1}, Thorough: map[string]int{"K": 2, "OPS": 4, "TRUNCK": 2}, Covers: []string{"reached-assert", "two-handled", "fault-hit"}, MaxSteps: 4000000},
+				{Func: "ZZ_C19_H1", Pkg: "pkg/protocol/http1", Quick: map[string]int{"K": 2, "OPS": 2, "TRUNCK": 1}, Thorough: map[string]int{"K": 2, "OPS": 4, "TRUNCK": 2}, Covers: []string{"reached-assert", "two-handled", "fault-hit", "hijacked"}, MaxSteps: 4000000},
 			},
 			Assumptions: []string{"in-loop transport (standard.Conn); netpoll's return-to-poller mode is represented only by IdleTimeout == 0", "clock stub: monotonically increasing instants", "at most one injected fault per connection; request templates are concrete"},
 		},
@@ -84,6 +88,7 @@ func allProps() []PropSpec {
 			ID: "C14",
 			Harnesses: []HarnessSpec{
 				{Func: "ZZ_C14_H1", Pkg: "pkg/protocol/http1", Quick: map[string]int{"L": 6, "C": 2, "S": 6, "R": 3}, Thorough: map[string]int{"L": 9, "C": 2, "S": 7, "R": 4}, Covers: []string{"reached-assert", "stopped-mid-body", "read-to-eof"}, MaxSteps: 4000000},
+				{Func: "ZZ_C14_H2", Pkg: "pkg/protocol/http1", Covers: []string{"reached-assert", "both-handled"}, Note: "pooled bodyStream reuse across two connections after a failed release (sync.Pool modelled LIFO)"},
 			},
 			Assumptions: []string{"transport: real standard.Conn over a harness net.Conn, delivered whole or byte-at-a-time; netpoll outside", "small bodies (<= 9 bytes) with small prefetch limits exercise the same code paths as the 8 KiB regime; the 8 KiB regime itself is not run", "read-buffer sizes from {0,1,3,16}"},
 		},
@@ -112,6 +117,14 @@ func allProps() []PropSpec {
 				{Func: "ZZ_C12_H2", Pkg: "pkg/route", Covers: []string{"reached-assert", "matched"}},
 			},
 			Assumptions: []string{"chains up to N handlers over the seven behaviours of the property; group nesting depth <= 2 below the engine; Engine built without a transport and ServeHTTP called directly"},
+		},
+		{
+			ID: "C11",
+			Harnesses: []HarnessSpec{
+				{Func: "ZZ_C11_H1", Pkg: "pkg/protocol/http1", Quick: map[string]int{"P": 1, "H": 1, "B": 1}, Thorough: map[string]int{"P": 2, "H": 2, "B": 2}, Covers: []string{"reached-assert", "with-body"}},
+				{Func: "ZZ_C11_H2", Pkg: "pkg/protocol/http1/resp", Covers: []string{"reached-assert", "too-large"}},
+			},
+			Assumptions: []string{"multipart and URL-encoded form bodies, proxy form, gzip helpers and HostClient.Do plumbing are outside this revision", "the independent parser is the real hertz server (Serve over standard.Conn) plus the strict line reader of C05; net/http is not used as second decoder", "response templates: fixed, chunked+trailer, 204, 304, 100-continue+final, read-until-close with 3 symbolic body bytes and one symbolic header value byte"},
 		},
 	}
 }
